@@ -227,3 +227,43 @@ def run(fb, rep):
             else:
                 rep.ok(R, "%s::%s <-> tag %d <-> %s.%s" % (label, v, tg, gname, names[v]))
     rep.floor(R, "Rust variants compared", n, 9)
+
+
+def r12g(fb, rep):
+    """R12g — type-directed descent of the serde bridge (`api::de`): the deserializer built for a *child* of the current value
+    (its `input` comes from `get_variant` / the element iterator) is given the child's type, extracted from the parent's type
+    (`Option a` -> a, constructor arguments, row fields), never the parent's own `typ`.  With the parent's type the payload of
+    `Some "x"` is read at `Option String`: strings, chars, records and vectors inside an Option stop round-tripping."""
+    R = "R12g"
+    rep.rule(R, "the serde bridge descends into a child value with the child's type, not the parent's")
+    D = "gluon_vm::api::de::Deserializer"
+    a = fb.adts.get(D)
+    if a is None:
+        rep.anchor_lost(R, D)
+        return
+    names = [f["name"] for f in a["variants"][0]["fields"]]
+    ti, ii = names.index("typ"), names.index("input")
+    CHILD = ("get_variant", "next", "take", "get", "nth")
+    DESCENT = ("index", "ctor_args", "next", "take", "row_iter", "remove_forall", "get", "nth", "unwrap_or", "as_ref")
+    n = 0
+    for b in fb.bodies.values():
+        if b.crate.name != "gluon_vm" or "api::de" not in b.id:
+            continue
+        for i, j, pl, rv, ln in b.assigns():
+            if not (rv[0] == "agg" and rv[1][0] == "adt" and rv[1][1] == D):
+                continue
+            isrc = flow.sources(b, rv[2][ii], depth=10)
+            child = any(s[0] == "call" and s[1].rsplit("::", 1)[-1] in CHILD for s in isrc)
+            if not child:
+                continue
+            n += 1
+            tsrc = flow.sources(b, rv[2][ti], depth=10)
+            own = ("field", D, "typ") in tsrc or any(s[0] == "call" and s[1].endswith("Deserializer<'de, 't> as core::clone::Clone>::clone") for s in tsrc)
+            descended = any(s[0] == "call" and s[1].rsplit("::", 1)[-1] in DESCENT and "Clone" not in s[1] for s in tsrc)
+            fn = b.id.rsplit("::", 1)[-1]
+            if own and not descended or not tsrc - {("arg", 1)}:
+                rep.violation(R, "child-read-at-parent-type|%s" % fn, "%s builds the deserializer of a child value with the parent's own type: the payload is interpreted at the wrong "
+                              "Gluon type (e.g. the String inside `Some` at `Option String`)" % b.id, "%s:%s" % (b.file, ln))
+            else:
+                rep.ok(R, "%s: child deserializer gets a type extracted from the parent's type" % fn)
+    rep.floor(R, "child deserializers built by the serde bridge", n, 4)
